@@ -7,10 +7,14 @@ use vstd::prelude::*;
 use std::collections::BTreeMap;
 use std::ops::Range;
 use std::cmp;
+use vstd::std_specs::cmp::OrdSpec;
 verus! {
 global size_of usize == 8;
 pub mod shims {
 use super::*;
+pub assume_specification<T> [std::cmp::max] (a: T, b: T) -> (r: T)
+    where T: std::cmp::Ord + std::marker::Destruct,
+    ensures (a.cmp_spec(&b) == core::cmp::Ordering::Greater) ==> r == a, (a.cmp_spec(&b) != core::cmp::Ordering::Greater) ==> r == b;
 pub uninterp spec fn range_is_empty_spec<Idx>(r: std::ops::Range<Idx>) -> bool;
 #[verifier::external_body]
 pub broadcast proof fn axiom_range_is_empty_u64(r: std::ops::Range<u64>)
@@ -64,6 +68,70 @@ impl RangeSet {
             None => forall|k: u64| self.0@.contains_key(k) ==> k <= x,
         }
     { unimplemented!() }
+//@ extract quinn-proto/src/range_set/btree_range_set.rs :: impl RangeSet::fn insert
+//@ ret res
+//@ contract
+        requires wf(old(self).0@)
+        ensures wf(final(self).0@),
+            // exactly set union
+            forall|v: u64| covered(final(self).0@, v) <==> covered(old(self).0@, v) || inr(x, v),
+//@ at-start
+        let ghost m0 = self.0@;
+        let ghost x0 = x;
+//@ before return false; #1
+                proof { assert forall|v: u64| inr(x0, v) implies covered(m0, v) by { assert(m0.contains_key(start) && start <= v < m0[start]); } }
+//@ after self.0.remove(&start);
+                proof {
+                    let m1 = self.0@;
+                    assert(forall|s: u64| #[trigger] m1.contains_key(s) ==> m0.contains_key(s) && m1[s] == m0[s]);
+                }
+//@ before while let Some((next_start, next_end)) = self.succ(x.start)
+        proof {
+            let m1 = self.0@;
+            assert(forall|s: u64| #[trigger] m1.contains_key(s) ==> m0.contains_key(s) && m1[s] == m0[s]);
+            assert forall|v: u64| pending(m1, x, v) <==> pending(m0, x0, v) by {
+                if covered(m1, v) { let s = choose|s: u64| #[trigger] m1.contains_key(s) && s <= v < m1[s]; assert(m0.contains_key(s)); }
+                if covered(m0, v) && !pending(m1, x, v) { let s = choose|s: u64| #[trigger] m0.contains_key(s) && s <= v < m0[s]; assert(m1.contains_key(s)); }
+                if inr(x, v) && !inr(x0, v) && !covered(m0, v) { assert(m0.contains_key(x.start)); }
+            }
+        }
+//@ loop 0
+            invariant
+                wf(self.0@), x.start < x.end,
+                forall|s: u64| #[trigger] self.0@.contains_key(s) ==> self.0@[s] < x.start || s > x.start,
+                forall|v: u64| pending(self.0@, x, v) <==> pending(m0, x0, v),
+            ensures
+                wf(self.0@), x.start < x.end, sep(self.0@, x.start, x.end),
+                forall|v: u64| pending(self.0@, x, v) <==> pending(m0, x0, v),
+            decreases self.0@.dom().len()
+//@ loop-start 0
+            let ghost mb = self.0@;
+            let ghost xb = x;
+//@ after x.end = cmp::max(next_end, x.end);
+            proof {
+                let m1 = self.0@;
+                assert(forall|s: u64| #[trigger] m1.contains_key(s) ==> mb.contains_key(s) && m1[s] == mb[s]);
+                assert forall|v: u64| pending(m1, x, v) <==> pending(mb, xb, v) by {
+                    if covered(m1, v) { let s = choose|s: u64| #[trigger] m1.contains_key(s) && s <= v < m1[s]; assert(mb.contains_key(s)); }
+                    if covered(mb, v) && !pending(m1, x, v) { let s = choose|s: u64| #[trigger] mb.contains_key(s) && s <= v < mb[s]; assert(m1.contains_key(s)); }
+                    if inr(x, v) && !inr(xb, v) && !covered(mb, v) { assert(mb.contains_key(next_start)); }
+                }
+            }
+//@ before true
+        proof {
+            let m1 = self.0@;
+            assert forall|v: u64| covered(m1, v) <==> pending(mi, x, v) by {
+                if covered(m1, v) { let s = choose|s: u64| #[trigger] m1.contains_key(s) && s <= v < m1[s]; if s != x.start { assert(mi.contains_key(s)); } }
+                if covered(mi, v) { let s = choose|s: u64| #[trigger] mi.contains_key(s) && s <= v < mi[s]; assert(m1.contains_key(s)); }
+                if inr(x, v) { assert(m1.contains_key(x.start)); }
+            }
+            assert forall|v: u64| covered(m1, v) <==> covered(m0, v) || inr(x0, v) by {
+                assert(pending(mi, x, v) <==> pending(m0, x0, v));
+            }
+        }
+//@ before self.0.insert(x.start, x.end);
+        let ghost mi = self.0@;
+//@ end
 //@ extract quinn-proto/src/range_set/btree_range_set.rs :: impl RangeSet::fn replace
 //@ ret it
 //@ replace |&(_, end)| end >= range.start => |p: &(u64, u64)| -> (b: bool) ensures b == (p.1 >= range.start) { p.1 >= range.start }
